@@ -193,14 +193,15 @@ def replay_common(ctx, path, pid):
         for lines, fd in rep["earlier_on_same_semantics"]:
             dgcheck.Impl(rep["isa"], rep["arch"], lines, fd, mm, sem=shared)
         print("(after %d earlier kernels on the same ArchSemantics object)" % len(rep["earlier_on_same_semantics"]))
-        im = dgcheck.Impl(rep["isa"], rep["arch"], rep["kernel"], rep.get("flag_deps", False), mm, sem=shared)
+        im = dgcheck.Impl(rep["isa"], rep["arch"], rep["kernel"], rep.get("flag_deps", False), mm, sem=shared,
+                          gaps=rep.get("gaps"))
     elif "reanalysed_after_flag_deps" in rep:
-        im = dgcheck.Impl(rep["isa"], rep["arch"], rep["kernel"], rep["reanalysed_after_flag_deps"])
+        im = dgcheck.Impl(rep["isa"], rep["arch"], rep["kernel"], rep["reanalysed_after_flag_deps"], gaps=rep.get("gaps"))
         im = im.reanalysed(rep.get("flag_deps", False), sub=rep.get("reanalysed_sub_range"))
         print("(second analysis of the same instruction-form objects)")
     else:
         try:
-            im = dgcheck.Impl(rep["isa"], rep["arch"], rep["kernel"], rep.get("flag_deps", False))
+            im = dgcheck.Impl(rep["isa"], rep["arch"], rep["kernel"], rep.get("flag_deps", False), gaps=rep.get("gaps"))
         except Exception as e:  # noqa  (the recorded failure is the exception itself)
             if not rep.get("exception"):
                 raise
